@@ -13,6 +13,12 @@ CHECKS = {
   note="Trusted: TLC, the output readers (vdrv/parse.go), entry identity per granularity transcribed from the code (the property leaves it to the report). Bounds: 2 samples, depth<=4 exhaustive; random traces up to 8 samples x depth 6. callgrind/web-top numbers are not read here.",
   technique="TLA+ spec + TLC exhaustive enumeration replayed on the real report pipeline; TLC trace validation of recorded real reports",
   design_ref="DESIGN.md 5/C04"),
+ "C05": dict(
+  category="model_checking",
+  text="Trim.tla/TrimRules.tla: TLC checks the rebuild-from-samples-with-a-kept-set mechanism (nil nodes, residual flag, flat only if no removed entry follows) against the declarative trimmed tables for EVERY subset K of the entries of every catalogue profile (shown rows keep untrimmed flat/cum, edge weight = adjacency after deleting removed entries, residual marking, accounting). TraceTrim.tla then validates thousands of real trimmed -top/-tree/-dot reports (nodecount x nodefraction x edgefraction x sort, cutoffs landing on chosen integers) using the set of entries the real report shows as the witness K: admissible K for text reports (cum cutoff, top N by the active key), untrimmed numbers, no dangling edge, residual marking, accounting figure.",
+  note="Trusted: TLC, the output readers, PName (printable name) transcription. dot: survivors are heuristic, only invariance/no-dangling/residual/accounting are demanded. Ties in the sort key may break either way. One known finding (text tree has no residual marker).",
+  technique="TLA+ spec model-checked over all kept sets; TLC trace validation of recorded real trimmed reports",
+  design_ref="DESIGN.md 5/C05"),
 }
 
 NOT_YET = "check not built yet in this session (planned in DESIGN.md section 5)"
